@@ -188,7 +188,9 @@ func (k *kase) exec(w *world, c cmd) snap {
 	case "rel":
 		if a := w.find(c.arg); a != nil {
 			if c.sat {
-				w.fill()
+				w.mu.Lock()
+				w.satArmed = true // the pool is filled at the instant the round stores Ok
+				w.mu.Unlock()
 				w.release(a)
 				w.waitSaturated()
 				w.unfill()
